@@ -350,6 +350,143 @@ theorem captureText_render (parse : Text → Layout) (f : FuncDef) (name : Optio
   | none => rfl
   | some n => simp only [replaceFuncname_render, withName]
 
+/-! ### cutting a text into lines -/
+
+def noNl (s : List Char) : Prop := ∀ c ∈ s, c ≠ '\n'
+
+theorem splitLines_ne_nil (s : List Char) : splitLines s ≠ [] := by
+  cases s with
+  | nil => simp [splitLines]
+  | cons c cs =>
+    simp only [splitLines]
+    split
+    · simp
+    · split <;> simp
+
+def consFirst (a : Line) : Text → Text
+  | [] => [a]
+  | l :: ls => (a ++ l) :: ls
+
+theorem splitLines_cons_of_ne {c : Char} (h : c ≠ '\n') (s : List Char) :
+    splitLines (c :: s) = consFirst [c] (splitLines s) := by
+  simp only [splitLines, h, if_false]
+  cases splitLines s <;> rfl
+
+theorem consFirst_append (a b : Line) (t : Text) (ht : t ≠ []) :
+    consFirst a (consFirst b t) = consFirst (a ++ b) t := by
+  cases t with
+  | nil => exact absurd rfl ht
+  | cons l ls => simp [consFirst]
+
+theorem consFirst_ne_nil (a : Line) (t : Text) : consFirst a t ≠ [] := by
+  cases t <;> simp [consFirst]
+
+theorem splitLines_append_left (a s : List Char) (ha : noNl a) :
+    splitLines (a ++ s) = consFirst a (splitLines s) := by
+  induction a with
+  | nil =>
+    cases h : splitLines s with
+    | nil => exact absurd h (splitLines_ne_nil s)
+    | cons l ls => simp [consFirst, h]
+  | cons c cs ih =>
+    have hc : c ≠ '\n' := ha c (by simp)
+    have hcs : noNl cs := fun x hx => ha x (by simp [hx])
+    rw [List.cons_append, splitLines_cons_of_ne hc, ih hcs,
+      consFirst_append _ _ _ (splitLines_ne_nil s)]
+    rfl
+
+theorem splitLines_noNl (b : List Char) (hb : noNl b) : splitLines b = [b] := by
+  have := splitLines_append_left b [] hb
+  simpa [splitLines, consFirst] using this
+
+theorem appendLast_cons_cons (l x : Line) (xs : Text) (b : Line) :
+    appendLast (l :: x :: xs) b = l :: appendLast (x :: xs) b := rfl
+
+theorem consFirst_appendLast (a : Line) (t : Text) (b : Line) (ht : t ≠ []) :
+    consFirst a (appendLast t b) = appendLast (consFirst a t) b := by
+  cases t with
+  | nil => exact absurd rfl ht
+  | cons x xs =>
+    cases xs with
+    | nil => simp [appendLast, consFirst]
+    | cons y ys => simp [appendLast, consFirst]
+
+theorem splitLines_append_right (s b : List Char) (hb : noNl b) :
+    splitLines (s ++ b) = appendLast (splitLines s) b := by
+  induction s with
+  | nil => simp [splitLines_noNl b hb, splitLines, appendLast]
+  | cons c cs ih =>
+    by_cases hc : c = '\n'
+    · subst hc
+      simp only [List.cons_append, splitLines, if_true, ih]
+      cases h : splitLines cs with
+      | nil => exact absurd h (splitLines_ne_nil cs)
+      | cons x xs => rfl
+    · rw [List.cons_append, splitLines_cons_of_ne hc, splitLines_cons_of_ne hc, ih,
+        consFirst_appendLast _ _ _ (splitLines_ne_nil cs)]
+
+theorem appendLast_eq (r : Text) (b : Line) (hr : r ≠ []) :
+    appendLast r b = r.dropLast ++ [r.getLast?.getD [] ++ b] := by
+  induction r with
+  | nil => exact absurd rfl hr
+  | cons x xs ih =>
+    cases xs with
+    | nil => simp [appendLast]
+    | cons y ys =>
+      rw [appendLast_cons_cons, ih (by simp)]
+      simp [List.dropLast, List.getLast?_cons_cons]
+
+theorem appendLast_appendLast (t : Text) (a b : Line) (ht : t ≠ []) :
+    appendLast (appendLast t a) b = appendLast t (a ++ b) := by
+  induction t with
+  | nil => exact absurd rfl ht
+  | cons x xs ih =>
+    cases xs with
+    | nil => simp [appendLast]
+    | cons y ys =>
+      rw [appendLast_cons_cons, appendLast_cons_cons]
+      have := ih (by simp)
+      cases h : appendLast (y :: ys) a with
+      | nil =>
+        cases ys <;> simp [appendLast] at h
+      | cons z zs =>
+        rw [h] at this
+        rw [appendLast_cons_cons, this]
+
+theorem flat_cons_cons (l x : Line) (xs : Text) : flat (l :: x :: xs) = l ++ '\n' :: flat (x :: xs) := rfl
+
+theorem flat_splitLines (s : List Char) : flat (splitLines s) = s := by
+  induction s with
+  | nil => rfl
+  | cons c cs ih =>
+    by_cases hc : c = '\n'
+    · subst hc
+      simp only [splitLines, if_true]
+      cases h : splitLines cs with
+      | nil => exact absurd h (splitLines_ne_nil cs)
+      | cons x xs => rw [flat_cons_cons, ← h, ih]; rfl
+    · rw [splitLines_cons_of_ne hc]
+      cases h : splitLines cs with
+      | nil => exact absurd h (splitLines_ne_nil cs)
+      | cons x xs =>
+        rw [h] at ih
+        cases xs with
+        | nil => simp only [consFirst, flat] at ih ⊢; simp [ih]
+        | cons y ys =>
+          simp only [consFirst]
+          rw [flat_cons_cons] at ih ⊢
+          simp [← ih]
+
+theorem spanOf_lines (t : Text) (ht : t ≠ []) : (spanOf t).lines = t := by
+  match t, ht with
+  | [a], _ => rfl
+  | a :: b :: r, _ =>
+    simp only [spanOf, Span.lines]
+    congr 1
+    have : (b :: r) ≠ [] := by simp
+    rw [List.getLast?_eq_some_getLast this]
+    simp [List.dropLast_concat_getLast]
+
 /-! ### `replace_docstring` -/
 
 theorem getD_append_cons {α : Type} (x : List α) (l : α) (y : List α) (i : Nat) (d : α)
@@ -403,16 +540,94 @@ theorem joinLines_snoc (a n1 l b : Line) (xs : Text) :
     rw [← List.cons_append, appendLast_snoc]
     rfl
 
+/-- the lines of `"""` + the escaped text + `"""` after the `indent` loop, in terms of the
+lines `d` of the escaped text -/
+def newDocS (ind : Line) (d : Span) (ii : Bool) : Line × Text :=
+  match d.more with
+  | none => (ind ++ q3 ++ d.first ++ q3, [])
+  | some (mid, last) =>
+    (ind ++ q3 ++ d.first,
+     mid.map (fun l => if ii then pyIndentLine ind l else l)
+       ++ [(if ii then ind else []) ++ last ++ q3])
+
+theorem noNl_q3 : noNl q3 := by
+  intro c hc; simp [q3] at hc; subst hc; decide
+
+theorem noNl_semi : noNl semi := by
+  intro c hc; simp [semi] at hc; rcases hc with rfl | rfl <;> decide
+
+theorem pyIndentLine_of_quote (p l : Line) (h : '"' ∈ l) : pyIndentLine p l = p ++ l := by
+  unfold pyIndentLine
+  rw [if_neg]
+  intro hall
+  have := List.all_eq_true.mp hall '"' h
+  revert this; decide
+
+/-- the lines of `quote_docstring(doc)` -/
+theorem splitLines_quoteDocstring (doc : List Char) :
+    splitLines (quoteDocstring doc)
+      = appendLast (consFirst q3 (splitLines (quoteChars 0 doc))) q3 := by
+  unfold quoteDocstring
+  rw [splitLines_append_right _ _ noNl_q3, splitLines_append_left _ _ noNl_q3]
+
+theorem docLines_quoteDocstring (doc : List Char) :
+    docLines (quoteDocstring doc) = newDocS [] (docSpan doc) false := by
+  unfold docLines docSpan
+  rw [splitLines_quoteDocstring]
+  match h : splitLines (quoteChars 0 doc), splitLines_ne_nil (quoteChars 0 doc) with
+  | [a], _ => simp [consFirst, appendLast, spanOf, newDocS]
+  | a :: b :: r, _ =>
+    simp only [consFirst, appendLast_cons_cons, spanOf, newDocS]
+    rw [appendLast_eq _ _ (by simp)]
+    simp
+
+theorem newDoc_quoteDocstring (ind : Line) (doc : List Char) (ii : Bool) :
+    newDoc ind (quoteDocstring doc) ii = newDocS ind (docSpan doc) ii := by
+  unfold newDoc
+  rw [docLines_quoteDocstring]
+  cases hm : (docSpan doc).more with
+  | none =>
+    simp only [newDocS, hm, List.map_nil, List.nil_append]
+    rw [pyIndentLine_of_quote _ _ (by simp [q3])]
+    simp
+  | some m =>
+    obtain ⟨mid, last⟩ := m
+    simp only [newDocS, hm, List.nil_append, List.map_append, List.map_cons, List.map_nil]
+    rw [pyIndentLine_of_quote _ _ (by simp [q3])]
+    cases ii with
+    | false => simp
+    | true =>
+      simp only [if_true, Bool.false_eq_true, if_false, List.nil_append, List.map_map]
+      rw [pyIndentLine_of_quote _ (last ++ q3) (by simp [q3])]
+      simp [Function.comp_def]
+
+/-- `docstr + "; "` as lines: the separator goes to the end of the last line -/
+theorem joinLines_docLines_semi (a b : Line) (quoted : List Char) :
+    joinLines a ((docLines (quoted ++ semi)).1, (docLines (quoted ++ semi)).2) b
+      = joinLines a (docLines quoted) (semi ++ b) := by
+  unfold docLines
+  rw [splitLines_append_right _ _ noNl_semi]
+  match h : splitLines quoted, splitLines_ne_nil quoted with
+  | [x], _ => simp [appendLast, joinLines]
+  | x :: y :: r, _ =>
+    rw [appendLast_cons_cons]
+    simp only [joinLines]
+    cases h2 : appendLast (y :: r) semi with
+    | nil => cases r <;> simp [appendLast] at h2
+    | cons z zs =>
+      simp only
+      rw [← h2, appendLast_appendLast _ _ _ (by simp)]
+
 /-- the lines `replace_docstring` writes are the rendering of `blockDoc` -/
 theorem joinLines_newDoc (a ind b : Line) (d : Span) (ii : Bool) :
-    joinLines a (newDoc ind d ii) b
+    joinLines a (newDocS ind d ii) b
       = (a ++ ind ++ (docTail [] (blockDoc ind d ii) b).1) :: (docTail [] (blockDoc ind d ii) b).2 := by
   obtain ⟨first, more⟩ := d
   cases more with
-  | none => simp [newDoc, joinLines, docTail, blockDoc, mkDoc]
+  | none => simp [newDocS, joinLines, docTail, blockDoc, mkDoc]
   | some m =>
     obtain ⟨mid, last⟩ := m
-    simp only [newDoc, blockDoc, mkDoc, docTail, Option.map_some, indAll_nil_pre, List.nil_append]
+    simp only [newDocS, blockDoc, mkDoc, docTail, Option.map_some, indAll_nil_pre, List.nil_append]
     rw [joinLines_snoc]
     simp
 
@@ -445,14 +660,14 @@ theorem docTail_mk_some (p opn first cls sfx last : Line) (mid : Text) :
     docTail p ⟨opn, ⟨first, some (mid, last)⟩, cls⟩ sfx
       = (opn ++ first, indAll p mid ++ [p ++ last ++ cls ++ sfx]) := rfl
 
-theorem replaceDocstring_render (f : FuncDef) (hp : f.pre = []) (d : Span) (ii : Bool) :
-    replaceDocstring (layoutOf f) (render f) d ii = render (replaceDocS f d ii) := by
+theorem replaceDocstring_render (f : FuncDef) (hp : f.pre = []) (doc : List Char) (ii : Bool) :
+    replaceDocstring (layoutOf f) (render f) doc ii = render (replaceDocS f doc ii) := by
   obtain ⟨pre, lead, decos, gap, defkw, name, sig, body, trail, pnames⟩ := f
   simp only at hp
   subst hp
   cases body with
-  | inline doc stmts =>
-    cases doc with
+  | inline doc0 stmts =>
+    cases doc0 with
     | none =>
       simp only [replaceDocstring, layoutOf, docPosOf, render, defLine, bodyParts, replaceDocS,
         setDocBody, indAll_nil_pre, List.nil_append, List.length_nil, Nat.zero_add,
@@ -460,7 +675,7 @@ theorem replaceDocstring_render (f : FuncDef) (hp : f.pre = []) (d : Span) (ii :
       rw [← List.append_assoc lead, ← List.append_assoc (lead ++ decos)]
       rw [show defkw ++ (name ++ (sig ++ stmts)) = (defkw ++ name ++ sig) ++ ([] ++ stmts) by simp]
       rw [splice_same _ _ _ _ _ _ _ _ _ (by simp; omega) (by simp; omega) (by simp; omega)]
-      rw [joinLines_newDoc, blockDoc_nil_false]
+      rw [joinLines_docLines_semi, docLines_quoteDocstring, joinLines_newDoc, blockDoc_nil_false]
       simp
     | some d0 =>
       obtain ⟨opn0, ⟨first0, more0⟩, cls0⟩ := d0
@@ -473,7 +688,7 @@ theorem replaceDocstring_render (f : FuncDef) (hp : f.pre = []) (d : Span) (ii :
         rw [show defkw ++ (name ++ (sig ++ (opn0 ++ (first0 ++ (cls0 ++ stmts)))))
           = (defkw ++ name ++ sig) ++ ((opn0 ++ first0 ++ cls0) ++ stmts) by simp]
         rw [splice_same _ _ _ _ _ _ _ _ _ (by simp; omega) (by simp; omega) (by simp; omega)]
-        rw [joinLines_newDoc, blockDoc_nil_false]
+        rw [docLines_quoteDocstring, joinLines_newDoc, blockDoc_nil_false]
         simp
       | some m0 =>
         obtain ⟨mid0, last0⟩ := m0
@@ -486,15 +701,15 @@ theorem replaceDocstring_render (f : FuncDef) (hp : f.pre = []) (d : Span) (ii :
         rw [show last0 ++ (cls0 ++ stmts) = (last0 ++ cls0) ++ stmts by simp]
         rw [splice_span _ _ _ _ _ _ _ _ _ _ _ _ (by simp; omega) (by simp; omega) (by simp; omega)
           (by simp)]
-        rw [joinLines_newDoc, blockDoc_nil_false]
+        rw [docLines_quoteDocstring, joinLines_newDoc, blockDoc_nil_false]
         simp
-  | block sm cmts ind doc after rest =>
-    cases doc with
+  | block sm cmts ind doc0 after rest =>
+    cases doc0 with
     | none =>
       simp only [replaceDocstring, layoutOf, docPosOf, render, defLine, bodyParts, replaceDocS,
         setDocBody, indAll_nil_pre, List.nil_append, List.length_nil, Nat.zero_add,
         Bool.false_eq_true, if_false, if_true, List.append_assoc, List.cons_append,
-        List.append_nil]
+        List.append_nil, newDoc_quoteDocstring]
       rw [show lead ++ (decos ++ (gap ++ (defkw ++ (name ++ sig)) :: (sm ++ (cmts ++ (ind ++ after) :: (rest ++ trail)))))
           = (lead ++ decos ++ gap ++ (defkw ++ (name ++ sig)) :: (sm ++ cmts)) ++ ([] ++ ([] ++ (ind ++ after))) :: (rest ++ trail) by simp]
       rw [splice_same _ _ _ _ _ _ _ _ _ (by simp; omega) (by simp) (by simp)]
@@ -507,7 +722,7 @@ theorem replaceDocstring_render (f : FuncDef) (hp : f.pre = []) (d : Span) (ii :
         simp only [replaceDocstring, layoutOf, docPosOf, render, defLine, bodyParts, replaceDocS,
           setDocBody, indAll_nil_pre, List.nil_append, List.length_nil, Nat.zero_add,
           docTail_mk_none, spanEnd, Bool.false_eq_true, if_false, if_true, List.append_assoc,
-          List.cons_append, List.append_nil]
+          List.cons_append, List.append_nil, newDoc_quoteDocstring]
         rw [show lead ++ (decos ++ (gap ++ (defkw ++ (name ++ sig)) :: (sm ++ (cmts ++ (ind ++ (opn0 ++ (first0 ++ (cls0 ++ after)))) :: (rest ++ trail)))))
             = (lead ++ decos ++ gap ++ (defkw ++ (name ++ sig)) :: (sm ++ cmts)) ++ ([] ++ ((ind ++ opn0 ++ first0 ++ cls0) ++ after)) :: (rest ++ trail) by simp]
         rw [splice_same _ _ _ _ _ _ _ _ _ (by simp; omega) (by simp) (by simp; omega)]
@@ -518,7 +733,7 @@ theorem replaceDocstring_render (f : FuncDef) (hp : f.pre = []) (d : Span) (ii :
         simp only [replaceDocstring, layoutOf, docPosOf, render, defLine, bodyParts, replaceDocS,
           setDocBody, indAll_nil_pre, List.nil_append, List.length_nil, Nat.zero_add,
           docTail_mk_some, spanEnd, Bool.false_eq_true, if_false, if_true, List.append_assoc,
-          List.cons_append, List.append_nil]
+          List.cons_append, List.append_nil, newDoc_quoteDocstring]
         rw [show lead ++ (decos ++ (gap ++ (defkw ++ (name ++ sig)) :: (sm ++ (cmts ++ (ind ++ (opn0 ++ first0)) :: (mid0 ++ (last0 ++ (cls0 ++ after)) :: (rest ++ trail))))))
             = (lead ++ decos ++ gap ++ (defkw ++ (name ++ sig)) :: (sm ++ cmts)) ++ ([] ++ (ind ++ opn0 ++ first0)) :: (mid0 ++ ((last0 ++ cls0) ++ after) :: (rest ++ trail)) by simp]
         rw [splice_span _ _ _ _ _ _ _ _ _ _ _ _ (by simp; omega) (by simp) (by simp; omega)
@@ -526,18 +741,19 @@ theorem replaceDocstring_render (f : FuncDef) (hp : f.pre = []) (d : Span) (ii :
         rw [joinLines_newDoc]
         simp
 
-theorem wf_replaceDocS (f : FuncDef) (d : Span) (ii : Bool) (h : f.wf = true) :
+theorem wf_replaceDocS (f : FuncDef) (d : List Char) (ii : Bool) (h : f.wf = true) :
     (replaceDocS f d ii).wf = true := by
   simp only [FuncDef.wf, Bool.and_eq_true] at h ⊢
   refine ⟨h.1, ?_⟩
   simp only [replaceDocS]
   cases f.body with
-  | inline doc stmts => simp [setDocBody, Body.wf, DocLit.wf, mkDoc, q3, startsNonWs, isWs]
+  | inline doc stmts =>
+    cases doc <;> simp [setDocBody, Body.wf, DocLit.wf, mkDoc, q3, startsNonWs, isWs]
   | block sm cmts ind doc after rest =>
     cases doc <;> simp [setDocBody, Body.wf, DocLit.wf, mkDoc, blockDoc, q3, startsNonWs, isWs]
 
 /-- `set_doc` on the text of a captured definition is `setDocS` on the definition -/
-theorem setDocText_render (parse : Text → Layout) (f : FuncDef) (d : Span) (ii : Bool)
+theorem setDocText_render (parse : Text → Layout) (f : FuncDef) (d : List Char) (ii : Bool)
     (h : f.wf = true) (hp : f.pre = [])
     (h0 : parse (render f) = layoutOf f)
     (h1 : parse (render (dedentS (replaceDocS f d ii))) = layoutOf (dedentS (replaceDocS f d ii)))
@@ -644,106 +860,136 @@ theorem extractLambda_render (s : LamStmt) :
 
 
 
-theorem q3_prefix_mono (s t : List Char) (h : q3.isPrefixOf s = true) :
-    q3.isPrefixOf (s ++ t) = true := by
+/-! ### `quote_docstring` read back by CPython's lexer -/
+
+/-- number of double quotes a text starts with -/
+def leadQ : List Char → Nat
+  | [] => 0
+  | c :: cs => if c = '"' then leadQ cs + 1 else 0
+
+theorem leadQ_of_q3_prefix (s : List Char) (h : q3.isPrefixOf s = true) : 3 ≤ leadQ s := by
   match s, h with
   | [], h => simp [q3, List.isPrefixOf] at h
   | [a], h => simp [q3, List.isPrefixOf] at h
   | [a, b], h => simp [q3, List.isPrefixOf] at h
-  | a :: b :: c :: r, h => simpa [q3, List.isPrefixOf] using h
-
-theorem q3_prefix_app (s : List Char) (h : q3.isPrefixOf (s ++ q3) = true) :
-    s = [] ∨ s.getLast? = some '"' ∨ q3.isPrefixOf s = true := by
-  match s, h with
-  | [], _ => exact .inl rfl
-  | [a], h =>
-    simp [q3, List.isPrefixOf] at h
-    exact .inr (.inl (by simp [← h]))
-  | [a, b], h =>
-    simp [q3, List.isPrefixOf] at h
-    exact .inr (.inl (by simp [← h.2]))
   | a :: b :: c :: r, h =>
-    exact .inr (.inr (by simpa [q3, List.isPrefixOf] using h))
+    simp [q3, List.isPrefixOf] at h
+    obtain ⟨rfl, rfl, rfl⟩ := h
+    simp [leadQ]
 
-theorem getLast?_cons_cons (a b : Char) (r : List Char) :
-    (a :: b :: r).getLast? = (b :: r).getLast? := by
-  simp [List.getLast?_cons_cons]
+theorem lexTriple_q3 : lexTriple q3 = some ([], []) := by decide
 
-theorem lex_safe (s : List Char) (h : SafeChars s = true) :
-    lexTriple (s ++ q3) = some (s, []) := by
-  induction s with
-  | nil => simp [lexTriple, q3, List.isPrefixOf]
+/-- every entry of the escape table is read back as the character it stands for -/
+theorem lex_table (p : Char × List Char) (hp : p ∈ docEscapes) (rest : List Char) :
+    lexTriple (p.2 ++ rest) = consVal p.1 (lexTriple rest) ∧ p.1 ≠ '"' ∧ p.2.head? = some '\\' := by
+  simp only [docEscapes, List.mem_cons, List.not_mem_nil, or_false] at hp
+  rcases hp with rfl | rfl | rfl | rfl | rfl | rfl | rfl | rfl | rfl | rfl | rfl <;>
+    refine ⟨?_, by decide, rfl⟩ <;>
+    (simp only [List.cons_append, List.nil_append]
+     conv => lhs; unfold lexTriple
+     simp [hexNum, hexVal])
+
+theorem lookup_mem {α β : Type} [BEq α] [LawfulBEq α] (l : List (α × β)) (a : α) (b : β)
+    (h : l.lookup a = some b) : (a, b) ∈ l := by
+  induction l with
+  | nil => simp at h
+  | cons x xs ih =>
+    obtain ⟨k, v⟩ := x
+    simp only [List.lookup] at h
+    split at h
+    · rename_i heq
+      have : a = k := by simpa using heq
+      simp at h; subst this; subst h; simp
+    · exact List.mem_cons_of_mem _ (ih h)
+
+theorem lookup_none_backslash (c : Char) (h : docEscapes.lookup c = none) : c ≠ '\\' := by
+  intro e; subst e; simp [docEscapes, List.lookup] at h
+
+/-- an escaped character (not a double quote) is read back as itself, and its escape does not
+start with a double quote -/
+theorem lex_escapeChar (c : Char) (hc : c ≠ '"') (rest : List Char) :
+    lexTriple (escapeChar c ++ rest) = consVal c (lexTriple rest)
+      ∧ leadQ (escapeChar c ++ rest) = 0 := by
+  unfold escapeChar
+  cases h : docEscapes.lookup c with
+  | some e =>
+    obtain ⟨h1, _, h3⟩ := lex_table (c, e) (lookup_mem _ _ _ h) rest
+    refine ⟨h1, ?_⟩
+    cases e with
+    | nil => simp at h3
+    | cons x xs =>
+      simp only [List.head?_cons, Option.some.injEq] at h3
+      subst h3
+      simp [leadQ]
+  | none =>
+    have hb := lookup_none_backslash c h
+    have hq : q3.isPrefixOf (c :: rest) = false := by
+      simp only [q3, List.isPrefixOf, Bool.and_eq_false_imp, beq_iff_eq]
+      intro e; exact absurd e.symm hc
+    refine ⟨?_, by simp [leadQ, hc]⟩
+    simp only [List.cons_append, List.nil_append]
+    conv => lhs; unfold lexTriple
+    simp [hb, hq]
+
+/-- **the run-of-quotes invariant**: reading the escaped text followed by the closing quotes
+returns the text; and the escaped text never continues the current run of `quotes` unescaped
+quotes to three. -/
+theorem lex_quoteChars (d : List Char) : ∀ (q : Nat), q ≤ 2 → (0 < q → d ≠ []) →
+    lexTriple (quoteChars q d ++ q3) = some (d, []) ∧ (d ≠ [] → leadQ (quoteChars q d ++ q3) + q ≤ 2) := by
+  induction d with
+  | nil =>
+    intro q _ hne
+    have : q = 0 := by
+      cases q with
+      | zero => rfl
+      | succ n => exact absurd rfl (hne (by omega))
+    subst this
+    exact ⟨lexTriple_q3, fun h => absurd rfl h⟩
   | cons c cs ih =>
-    simp only [SafeChars, Bool.and_eq_true, Bool.not_eq_true', bne_iff_ne, ne_eq] at h
-    obtain ⟨⟨h1, h2⟩, h3⟩ := h
-    have hc : c ≠ '\\' := by
-      intro e; subst e; simp at h3
-    have h1' : q3.isPrefixOf (c :: cs) = false ∧ hasTriple cs = false := by
-      simpa [hasTriple] using h1
-    have hnp : q3.isPrefixOf (c :: cs ++ q3) = false := by
-      cases hp : q3.isPrefixOf (c :: cs ++ q3) with
-      | false => rfl
-      | true =>
-        rcases q3_prefix_app (c :: cs) hp with h | h | h
-        · cases h
-        · exact absurd h h2
-        · rw [h1'.1] at h; cases h
-    have hs : SafeChars cs = true := by
-      simp only [SafeChars, Bool.and_eq_true, Bool.not_eq_true', bne_iff_ne, ne_eq]
-      refine ⟨⟨h1'.2, ?_⟩, ?_⟩
-      · cases cs with
-        | nil => simp
-        | cons d ds => rwa [getLast?_cons_cons] at h2
-      · simp only [List.contains_cons, Bool.or_eq_false_iff] at h3; exact h3.2
-    have := ih hs
-    simp only [List.cons_append] at hnp ⊢
-    simp only [lexTriple, hc, if_false, hnp, this, Option.map_some, Bool.false_eq_true]
+    intro q hq _
+    by_cases hc : c = '"'
+    · subst hc
+      by_cases hesc : q + 1 = 3 ∨ cs = []
+      · -- the quote is escaped
+        have ih0 := (ih 0 (by omega) (by omega)).1
+        simp only [quoteChars, if_true, hesc, List.cons_append]
+        refine ⟨?_, fun _ => by simp [leadQ]; omega⟩
+        conv => lhs; unfold lexTriple
+        simp [ih0, consVal]
+      · -- the quote stands as it is
+        have h1 : q + 1 ≤ 2 := by omega
+        have h2 : cs ≠ [] := fun e => hesc (Or.inr e)
+        obtain ⟨ihA, ihB⟩ := ih (q + 1) h1 (fun _ => h2)
+        have ihB := ihB h2
+        simp only [quoteChars, if_true, hesc, if_false, List.cons_append]
+        have hnp : q3.isPrefixOf ('"' :: (quoteChars (q + 1) cs ++ q3)) = false := by
+          cases hp : q3.isPrefixOf ('"' :: (quoteChars (q + 1) cs ++ q3)) with
+          | false => rfl
+          | true =>
+            have := leadQ_of_q3_prefix _ hp
+            simp only [leadQ, if_true] at this
+            omega
+        refine ⟨?_, fun _ => by simp only [leadQ, if_true]; omega⟩
+        have hb : ('"' : Char) ≠ '\\' := by decide
+        conv => lhs; unfold lexTriple
+        simp [hnp, ihA, consVal]
+    · obtain ⟨e1, e2⟩ := lex_escapeChar c hc (quoteChars 0 cs ++ q3)
+      have ih0 := (ih 0 (by omega) (by omega)).1
+      simp only [quoteChars, hc, if_false, List.append_assoc]
+      refine ⟨?_, fun _ => by rw [e2]; omega⟩
+      rw [e1, ih0]; rfl
 
-theorem lex_safe_conv (s : List Char) (h : lexTriple (s ++ q3) = some (s, [])) :
-    SafeChars s = true := by
-  induction s with
-  | nil => simp [SafeChars, hasTriple]
-  | cons c cs ih =>
-    simp only [List.cons_append, lexTriple] at h
-    by_cases hc : c = '\\'
-    · simp [hc] at h
-    · simp only [hc, if_false] at h
-      cases hp : q3.isPrefixOf (c :: (cs ++ q3)) with
-      | true => simp [hp] at h
-      | false =>
-        simp only [hp, Bool.false_eq_true, if_false] at h
-        cases hl : lexTriple (cs ++ q3) with
-        | none => simp [hl] at h
-        | some r =>
-          obtain ⟨r1, r2⟩ := r
-          simp only [hl, Option.map_some, Option.some.injEq, Prod.mk.injEq, List.cons.injEq,
-            true_and] at h
-          obtain ⟨e1, e2⟩ := h
-          subst e1 e2
-          have hs := ih hl
-          simp only [SafeChars, Bool.and_eq_true, Bool.not_eq_true', bne_iff_ne, ne_eq] at hs ⊢
-          obtain ⟨⟨s1, s2⟩, s3⟩ := hs
-          have hnp : q3.isPrefixOf (c :: r1) = false := by
-            cases hq : q3.isPrefixOf (c :: r1) with
-            | false => rfl
-            | true =>
-              have := q3_prefix_mono (c :: r1) q3 hq
-              simp only [List.cons_append] at this
-              rw [hp] at this; cases this
-          refine ⟨⟨by simp [hasTriple, hnp, s1], ?_⟩, ?_⟩
-          · cases r1 with
-            | nil =>
-              intro e
-              simp at e
-              subst e
-              simp [q3, List.isPrefixOf] at hp
-            | cons d ds => rw [getLast?_cons_cons]; exact s2
-          · simp only [List.contains_cons, Bool.or_eq_false_iff]
-            exact ⟨by simpa using fun e => hc e.symm, s3⟩
-
-theorem lex_safe_iff (s : List Char) :
-    lexTriple (s ++ q3) = some (s, []) ↔ SafeChars s = true :=
-  ⟨lex_safe_conv s, lex_safe s⟩
+/-- **`quote_docstring` is faithful for every string**: CPython reads the literal it returns
+back as exactly the text that was quoted. -/
+theorem readBack_quoteDocstring (d : List Char) : readBack (quoteDocstring d) = some d := by
+  have h := (lex_quoteChars d 0 (by omega) (by omega)).1
+  unfold readBack quoteDocstring
+  have hp : q3.isPrefixOf (q3 ++ quoteChars 0 d ++ q3) = true := by
+    simp [q3, List.isPrefixOf]
+  rw [if_pos hp]
+  have hd : (q3 ++ quoteChars 0 d ++ q3).drop 3 = quoteChars 0 d ++ q3 := by
+    simp [q3]
+  rw [hd, h]
 
 
 /-! ### normalisation is idempotent; captured definitions are well formed -/
@@ -841,5 +1087,127 @@ theorem renameChain_length (n : Line) (es : List Entry) (prev : Option Formula) 
   induction es generalizing prev with
   | nil => rfl
   | cons x xs ih => simp [renameChain, ih]
+
+/-! ### whitespace-only lines of the escaped text are those of the text -/
+
+/-- what `dedent` looks at in a line -/
+def lineSig (l : Line) : Bool × Bool := (blank l, l.isEmpty)
+
+theorem table_shape : ∀ p ∈ docEscapes,
+    (p.2.all (· != '\n') && !p.2.isEmpty && !blank p.2 && !isWs p.1 && p.1 != '\n') = true := by
+  decide
+
+theorem noNl_of_all {e : List Char} (h : e.all (· != '\n') = true) : noNl e := by
+  intro c hc
+  have := List.all_eq_true.mp h c hc
+  simpa using this
+
+/-- one step of the loop of `quote_docstring` on a character other than the line feed: what
+is emitted is not empty, has no line feed, and is blank iff the character is -/
+theorem quoteChars_step (q : Nat) (c : Char) (cs : List Char) (hc : c ≠ '\n') :
+    ∃ e q', quoteChars q (c :: cs) = e ++ quoteChars q' cs ∧ noNl e ∧ e ≠ [] ∧ blank e = isWs c := by
+  by_cases hq : c = '"'
+  · subst hq
+    by_cases hesc : q + 1 = 3 ∨ cs = []
+    · exact ⟨['\\', '"'], 0, by simp only [quoteChars, if_true, if_pos hesc]; rfl, by intro x hx; simp at hx; rcases hx with rfl | rfl <;> decide,
+        by simp, by decide⟩
+    · exact ⟨['"'], q + 1, by simp only [quoteChars, if_true, if_neg hesc]; rfl, by intro x hx; simp at hx; subst hx; decide,
+        by simp, by decide⟩
+  · refine ⟨escapeChar c, 0, by simp [quoteChars, hq], ?_⟩
+    unfold escapeChar
+    cases h : docEscapes.lookup c with
+    | some e =>
+      have := table_shape (c, e) (lookup_mem _ _ _ h)
+      simp only [Bool.and_eq_true, Bool.not_eq_true', bne_iff_ne, ne_eq] at this
+      obtain ⟨⟨⟨⟨h1, h2⟩, h3⟩, h4⟩, _⟩ := this
+      refine ⟨noNl_of_all h1, ?_, by rw [h3, h4]⟩
+      intro e0; subst e0; simp at h2
+    | none =>
+      refine ⟨by intro x hx; simp at hx; subst hx; exact hc, by simp, ?_⟩
+      simp [blank]
+
+theorem quoteChars_nl (q : Nat) (cs : List Char) :
+    quoteChars q ('\n' :: cs) = '\n' :: quoteChars 0 cs := by
+  have h : ('\n' : Char) ≠ '"' := by decide
+  have e : escapeChar '\n' = ['\n'] := by decide
+  simp [quoteChars, h, e]
+
+theorem sig_consFirst (e e' : Line) (t t' : Text) (he : e ≠ []) (he' : e' ≠ [])
+    (hb : blank e = blank e') (ht : t.map lineSig = t'.map lineSig) :
+    (consFirst e t).map lineSig = (consFirst e' t').map lineSig := by
+  cases t with
+  | nil =>
+    cases t' with
+    | nil =>
+      have h1 : e.isEmpty = false := by cases e <;> simp_all
+      have h2 : e'.isEmpty = false := by cases e' <;> simp_all
+      simp [consFirst, lineSig, hb, h1, h2]
+    | cons a as => simp at ht
+  | cons l ls =>
+    cases t' with
+    | nil => simp at ht
+    | cons a as =>
+      simp only [List.map_cons, List.cons.injEq, lineSig, Prod.mk.injEq] at ht
+      have h1 : (e ++ l).isEmpty = false := by cases e <;> simp_all
+      have h2 : (e' ++ a).isEmpty = false := by cases e' <;> simp_all
+      simp [consFirst, lineSig, hb, ht.1.1, ht.2, h1, h2]
+
+theorem sig_quoteChars (d : List Char) : ∀ q,
+    (splitLines (quoteChars q d)).map lineSig = (splitLines d).map lineSig := by
+  induction d with
+  | nil => intro q; rfl
+  | cons c cs ih =>
+    intro q
+    by_cases hc : c = '\n'
+    · subst hc
+      rw [quoteChars_nl]
+      simp only [splitLines, if_true, List.map_cons, ih 0]
+    · obtain ⟨e, q', h1, h2, h3, h4⟩ := quoteChars_step q c cs hc
+      rw [h1, splitLines_append_left _ _ h2, splitLines_cons_of_ne hc]
+      exact sig_consFirst _ _ _ _ h3 (by simp) (by rw [h4]; simp [blank]) (ih q')
+
+theorem midClean_sig (t : Text) :
+    ((t.drop 1).dropLast).all cleanLine
+      = (((t.map lineSig).drop 1).dropLast).all (fun s => !s.1 || s.2) := by
+  rw [← List.map_drop, ← List.map_dropLast, List.all_map]
+  rfl
+
+theorem normBlank_of_clean {l : Line} (h : cleanLine l = true) : normBlank l = l := by
+  unfold normBlank
+  split
+  · rename_i hb
+    simp only [cleanLine, hb, Bool.not_true, Bool.false_or, List.isEmpty_iff] at h
+    exact h.symm
+  · rfl
+
+theorem norm_spanOf (t : Text) (h : ((t.drop 1).dropLast).all cleanLine = true) :
+    (spanOf t).norm = spanOf t := by
+  match t, h with
+  | [], _ => rfl
+  | [a], _ => rfl
+  | a :: b :: r, h =>
+    simp only [List.drop_one, List.tail_cons] at h
+    simp only [spanOf, Span.norm, Option.map_some]
+    congr 3
+    have : ∀ l ∈ (b :: r).dropLast, normBlank l = l := fun l hl =>
+      normBlank_of_clean (List.all_eq_true.mp h l hl)
+    exact List.map_congr_left this |>.trans (List.map_id _)
+
+/-- a documentation text without a whitespace-only line strictly inside it is written as a
+literal that `dedent` leaves alone -/
+theorem docSpan_norm (doc : List Char) (h : NoWsOnlyMiddle doc = true) :
+    (docSpan doc).norm = docSpan doc := by
+  unfold docSpan
+  apply norm_spanOf
+  unfold NoWsOnlyMiddle at h
+  rw [midClean_sig] at h ⊢
+  rw [sig_quoteChars]; exact h
+
+/-- …and CPython reads that literal back as the text -/
+theorem value_mkDoc_docSpan (doc : List Char) : (mkDoc (docSpan doc)).value = some doc := by
+  unfold DocLit.value mkDoc docSpan
+  simp only [and_self, if_true]
+  rw [spanOf_lines _ (splitLines_ne_nil _), flat_splitLines]
+  exact readBack_quoteDocstring doc
 
 end MxModel.Capture
